@@ -7,37 +7,35 @@
 EXTENDS ExpLogDef, Json, IOUtils
 Rec == ndJsonDeserialize(IOEnv.TRACE)
 
-Eval(e) ==
-  LET B == e.base
-      p == e.prec
-      xq == FVal(B, e.x)
-      yq == FVal(B, e.y)
-      nb1 == FirstBytes(B, p)
-      T1 == Truth(e.op, xq, yq, e.n, nb1)
-      T2 == Truth(e.op, xq, yq, e.n, 2 * nb1 + 8)
-      T3 == Truth(e.op, xq, yq, e.n, 4 * nb1 + 24)
-      J(o) == LET j1 == Judge(B, p, o, T1) IN IF j1 # "U" THEN <<j1, 1>> ELSE
-              LET j2 == Judge(B, p, o, T2) IN IF j2 # "U" THEN <<j2, 2>> ELSE <<Judge(B, p, o, T3), 3>>
-      js == [i \in 1..Len(e.outs) |-> J(e.outs[i].out)]
-      why == FoldLeft(LAMBDA acc, j : IF acc = "" /\ j[1] # "U" THEN j[1] ELSE acc, "", js)
-      und == \E i \in 1..Len(js) : js[i][1] = "U"
-      lvl == FoldLeft(LAMBDA acc, j : Max2(acc, j[2]), 1, js)
-      \* the forms return the same number (not a demand of C11: reported as drift)
-      Same(a, b) == a.k = b.k /\ (a.k = "ok" => a.v.v.sig = b.v.v.sig /\ a.v.v.exp = b.v.v.exp /\ a.v.v.inf = b.v.v.inf)
-      dis == \E i \in 1..Len(e.outs) : ~Same(e.outs[i].out, e.outs[1].out)
-  IN [why |-> IF ~(IsInt(e.x.sig) /\ IsInt(e.y.sig)) THEN "malformed-operand" ELSE why,
-      und |-> und, lvl |-> lvl, dis |-> dis, dom |-> T1.kind = "domain", exact |-> T1.kind = "exact"]
+JudgeLevels(B, p, o, T1, T2, T3) ==
+  Let(Judge(B, p, o, T1, FALSE), LAMBDA j1 : IF j1 # "U" THEN <<j1, 1>> ELSE
+  Let(Judge(B, p, o, T2, FALSE), LAMBDA j2 : IF j2 # "U" THEN <<j2, 2>> ELSE <<Judge(B, p, o, T3, TRUE), 3>>))
+\* the forms return the same number (not a demand of C11: reported as drift)
+Same(a, b) == a.k = b.k /\ (a.k = "ok" => a.v.v.sig = b.v.v.sig /\ a.v.v.exp = b.v.v.exp /\ a.v.v.inf = b.v.v.inf)
+EvalJ(e, js, kind) ==
+  [why |-> IF ~(IsInt(e.x.sig) /\ IsInt(e.y.sig)) THEN "malformed-operand"
+           ELSE FoldLeft(LAMBDA acc, j : IF acc = "" /\ j[1] # "U" THEN j[1] ELSE acc, "", js),
+   und |-> \E i \in 1..Len(js) : js[i][1] = "U",
+   lvl |-> FoldLeft(LAMBDA acc, j : Max2(acc, j[2]), 1, js),
+   dis |-> \E i \in 1..Len(e.outs) : ~Same(e.outs[i].out, e.outs[1].out),
+   dom |-> kind = "domain", exact |-> kind = "exact"]
+EvalT(e, B, p, T1, T2, T3) ==
+  EvalJ(e, [i \in 1..Len(e.outs) |-> JudgeLevels(B, p, e.outs[i].out, T1, T2, T3)], T1.kind)
+EvalQ(e, B, p, xq, yq, nb1) ==
+  EvalT(e, B, p, Truth(e.op, xq, yq, e.n, nb1), Truth(e.op, xq, yq, e.n, 2 * nb1 + 8), Truth(e.op, xq, yq, e.n, 4 * nb1 + 24))
+Eval(e) == EvalQ(e, e.base, e.prec, FFVal(e.base, e.x), FFVal(e.base, e.y), FirstBytes(e.base, e.prec))
 
 VARIABLES l, bad, und, dis, cnt
 vars == <<l, bad, und, dis, cnt>>
 Init == l = 1 /\ bad = <<>> /\ und = <<>> /\ dis = <<>> /\ cnt = [lvl2 |-> 0, lvl3 |-> 0, dom |-> 0, exact |-> 0]
+Record(r) ==
+  /\ bad' = IF r.why = "" THEN bad ELSE Append(bad, [i |-> l, why |-> r.why])
+  /\ und' = IF r.und /\ r.why = "" THEN Append(und, l) ELSE und
+  /\ dis' = IF r.dis THEN Append(dis, l) ELSE dis
+  /\ cnt' = [lvl2 |-> cnt.lvl2 + (IF r.lvl = 2 THEN 1 ELSE 0), lvl3 |-> cnt.lvl3 + (IF r.lvl = 3 THEN 1 ELSE 0),
+             dom |-> cnt.dom + (IF r.dom THEN 1 ELSE 0), exact |-> cnt.exact + (IF r.exact THEN 1 ELSE 0)]
 Next == /\ l <= Len(Rec)
-        /\ LET r == Eval(Rec[l]) IN
-             /\ bad' = IF r.why = "" THEN bad ELSE Append(bad, [i |-> l, why |-> r.why])
-             /\ und' = IF r.und /\ r.why = "" THEN Append(und, l) ELSE und
-             /\ dis' = IF r.dis THEN Append(dis, l) ELSE dis
-             /\ cnt' = [lvl2 |-> cnt.lvl2 + (IF r.lvl = 2 THEN 1 ELSE 0), lvl3 |-> cnt.lvl3 + (IF r.lvl = 3 THEN 1 ELSE 0),
-                        dom |-> cnt.dom + (IF r.dom THEN 1 ELSE 0), exact |-> cnt.exact + (IF r.exact THEN 1 ELSE 0)]
+        /\ Record(Eval(Rec[l]))      \* an argument is evaluated once; a LET would be re-evaluated at every use
         /\ l' = l + 1
 Spec == Init /\ [][Next]_vars
 Verdict == l > Len(Rec) => PrintT(<<"VERDICT", ToJson([total |-> Len(Rec), bad |-> bad, undecided |-> und,
